@@ -67,6 +67,7 @@ type histOut struct {
 	DumpNote      string   `json:"dump_note,omitempty"`
 	SetupErr      string   `json:"setup_err,omitempty"`
 	OverlapFaults int      `json:"faults_overlapping_open_ops"`
+	Probes        int      `json:"new_leader_read_probes"`
 	DupTokens     []string `json:"tokens_applied_more_than_once"`
 	ClientRetries int64    `json:"cluster_client_retries"`
 }
@@ -248,6 +249,7 @@ func run(c *vf.Ctx) {
 		c.Count("unknown_outcomes", int64(unk))
 		c.Count("faults", int64(len(h.Faults)))
 		c.Count("faults_overlapping_open_ops", int64(h.OverlapFaults))
+		c.Count("new_leader_read_probes", int64(h.Probes))
 		if h.OverlapFaults > 0 && len(h.Leaders) >= 2 {
 			c.Nontrivial(fmt.Sprintf("case%d/%v", i, h.Faults))
 		}
@@ -559,6 +561,7 @@ func runHistory(c *vf.Ctx, caseNo int, dir string) (h histOut) {
 	// index late), make the leader vanish, and let the clients hammer the newly
 	// elected leader with reads during its first, slow round trips.
 	directed := caseNo%4 == 0
+	probeSeq := 0
 	for directed && time.Now().Before(deadline) {
 		names := cl.Names()
 		d := time.Duration(100+r.IntN(150)) * time.Millisecond
@@ -574,9 +577,50 @@ func runHistory(c *vf.Ctx, caseNo int, dir string) (h histOut) {
 		time.Sleep(time.Duration(500+r.IntN(500)) * time.Millisecond)
 		noteLeader()
 		if ld := cl.Leader(); ld != nil {
-			fault("isolate-leader:"+ld.Name, func() { cl.Net.Isolate(ld.Name, names) })
+			// Probe: a write acknowledged by the leader, the leader vanishes at
+			// once (the followers hold the entry but have not learned that it is
+			// committed), applies are slow, and the moment another node reports
+			// leadership it gets several concurrent linearizable reads of that key.
+			key := r.IntN(K)
+			probeSeq++
+			win := opIn{Kind: "append", Key: key, Arg: fmt.Sprintf("p%d", probeSeq), Node: ld.Name}
+			widx := recd.begin(50, win)
+			wout, wret := doOp(cl, ld, win)
+			recd.end(widx, wout, wret)
+			ad := time.Duration(40+r.IntN(80)) * time.Millisecond
+			fault(fmt.Sprintf("hook-sleep:fsm.apply.entry:%s", ad), func() { vexport.HookSetDelay("fsm.apply.entry", ad) })
+			fault("isolate-leader-after-ack:"+ld.Name, func() { cl.Net.Isolate(ld.Name, names) })
+			var nl *hcluster.Node
+			for huntEnd := time.Now().Add(3 * time.Second); nl == nil && time.Now().Before(huntEnd); {
+				for _, n := range cl.Live() {
+					if n.Name != ld.Name && n.Store.IsLeader() {
+						nl = n
+						break
+					}
+				}
+				if nl == nil {
+					time.Sleep(2 * time.Millisecond)
+				}
+			}
+			if nl != nil {
+				h.Probes++
+				var pw sync.WaitGroup
+				for p := 0; p < 4; p++ {
+					pw.Add(1)
+					go func(p int) {
+						defer pw.Done()
+						in := opIn{Kind: "read", Key: key, Lvl: "linearizable", Node: nl.Name}
+						idx := recd.begin(60+p, in)
+						out, returned := doOp(cl, nl, in)
+						recd.end(idx, out, returned)
+					}(p)
+					time.Sleep(time.Duration(r.IntN(8)) * time.Millisecond)
+				}
+				pw.Wait()
+			}
+			vexport.HookSetDelay("fsm.apply.entry", 0)
 		}
-		time.Sleep(time.Duration(1800+r.IntN(900)) * time.Millisecond)
+		time.Sleep(time.Duration(1200+r.IntN(900)) * time.Millisecond)
 		noteLeader()
 		fault("heal", func() { cl.Net.HealAll() })
 		time.Sleep(time.Duration(800+r.IntN(600)) * time.Millisecond)
